@@ -57,8 +57,12 @@ fn eval_case(c: &Case, take: usize) -> (Prog, String, Option<String>, bool, u64)
         nontrivial = true;
         // budget proportional to what the branch needed alone (the model's fairness rank justifies a
         // factor exponential only in the nesting depth of the disjunction, which is at most 5 here)
-        let budget = 400 * t + 5000;
-        let comb = Prog { take: 150, ..p.clone() };
+        // A leaf reached through the i-th clauses of nested disjunctions gets a 2^-(i+1) share of the steps per level; with
+        // up to 4 clauses on two levels the deepest leaf has 1/256 (the thorough tier met a leaf that needed 36 000 steps
+        // for an answer it delivers alone in 70: not starved, slow) — so the budget also grows with the leaf's position.
+        let share = 1u64 << std::cmp::min(i as u64 + 2, 9);
+        let budget = std::cmp::max(400 * t + 5000, (25 * t + 300) * share);
+        let comb = Prog { take: if share > 64 { 600 } else { 150 }, ..p.clone() };
         let co = run_prog_b(&comb, budget);
         let (got, cut) = answers_of(&co);
         for w in &want {
